@@ -315,7 +315,7 @@ def tlaps_proof(chk):
         if m:
             chk.cov["tlaps_obligations"] = int(m.group(1))
             chk.cov["tlaps_discharged"] = int(m.group(1))
-            chk.notes.append("TLAPS: Spec => []NoMixture proved for arbitrary argument sets (%s obligations, SpowtdProof.tla)" % m.group(1))
+            chk.notes.append("TLAPS: Spec => []NoMixture and Spec => Atomic proved for arbitrary argument sets (%s obligations, SpowtdProof.tla)" % m.group(1))
         else:
             f = re.search(r"(\d+)/(\d+) obligations failed", out)
             raise MachineryError("TLAPS proof of NoMixture did not go through: %s" % (f.group(0) if f else out[-400:]))
